@@ -165,6 +165,8 @@ def check(run, repo, world):
     fn = normalise(fn, world, HLP, world.cls(
         HLP + ".DeviceInstanceTypeMapper"), primitives=(
             "add_type", "get_type", "clear", "check_bad_rsp"), aliases=False)
+    from ..normal import inline_test_locals
+    fn = inline_test_locals(fn)
     cfg = gen_cfg(fn, F)
     ys = yields_of(cfg, world, HLP)
     run.floor("autodiscover yields", len(ys), 6)
@@ -1036,6 +1038,16 @@ def _check_autodiscover(run, world, mod, F, cfg, ys, fn):
                 for f in st:
                     if f[0] == "ans" and f[1] == v:
                         st = st | {("bad", f[2])}
+            if isinstance(a, ast.Attribute) and a.attr in (
+                    "short_address_is_mask", "reset_state") and \
+                    label == "T":
+                # an unhealthy device (no short address / in reset state)
+                # is skipped like one that did not answer
+                v = unparse(a.value)
+                for f in st:
+                    if f[0] == "ans" and f[1] == v and \
+                            f[2] == "QueryDeviceStatus":
+                        st = st | {("bad", "QueryDeviceStatus." + a.attr)}
             if isinstance(a, ast.Attribute) and a.attr == "value" and \
                     label == "F":
                 v = unparse(a.value)
@@ -1180,15 +1192,20 @@ def _check_autodiscover(run, world, mod, F, cfg, ys, fn):
     ok = False
     if st_y and ni_y and st_y[0].target:
         X = st_y[0].target
+        # both status bits are looked at on the way to the instance count
+        # (what follows a set bit is decided by #skip-on-bad: the marks set
+        # on the T edges above reach no command and no add_type)
         ok = True
         for attr in ("short_address_is_mask", "reset_state"):
             tests = [n for n in cfg.reachable if n.kind == "test" and
                      _is_attr_chain(n.ast, [X, attr])]
-            if not tests or not all(any(l == "T" and m.kind == "stmt"
-                                        and isinstance(m.ast, ast.Continue)
-                                        for (l, m) in t.succ)
-                                    for t in tests):
+            if not tests:
                 ok = False
+        for w in WW.at(ni_y[0].node):
+            for attr in ("short_address_is_mask", "reset_state"):
+                if not any(f[0] == "cond" and f[1] == "%s.%s" % (X, attr)
+                           and f[2] is False for f in w):
+                    ok = False
     run.ob("R-DEVSEQ-QUIET", F + "#status-screen", ok,
            "devices reporting short_address_is_mask or reset_state must be "
            "skipped", where(mod, fn))
